@@ -48,6 +48,10 @@ def wrap(shape, inner):
     if shape == "fixedsized":
         return (C.Struct("h" / C.Int16ub, "f" / C.FixedSized(64, C.Struct("rc" / rc))),
                 (lambda v: dict(h=1, f=dict(rc=dict(value=v)))), (lambda r: r.f.rc))
+    if shape == "twolevels":
+        # a region inside a region, the outer one not at offset 0: reported offsets stay absolute offsets of the one real stream
+        return (C.Struct("h" / C.Int16ub, "p" / C.Prefixed(C.Byte, C.Struct("x" / C.Byte, "f" / C.FixedSized(60, C.Struct("y" / C.Byte, "rc" / rc))))),
+                (lambda v: dict(h=1, p=dict(x=2, f=dict(y=3, rc=dict(value=v))))), (lambda r: r.p.f.rc))
     if shape == "array":
         return (C.Struct("a" / C.Array(2, rc)), (lambda v: dict(a=[dict(value=v), dict(value=v)])), (lambda r: r.a[1]))
     if shape == "nested":
@@ -56,7 +60,7 @@ def wrap(shape, inner):
     raise ValueError(shape)
 
 
-SHAPES = ["top", "struct", "prefixed", "fixedsized", "array", "nested"]
+SHAPES = ["top", "struct", "prefixed", "fixedsized", "array", "nested", "twolevels"]
 
 
 def rawcopy_oracle(ctx):
